@@ -36,7 +36,6 @@ CFG = {
         "Swat4.C10.holder_death_unblocks_of_ttl",
         "Swat4.C10.no_ttl_blocks_forever",
         "Swat4.C10.expire_no_ttl",
-        "Swat4.C10.lock_ttl_needs_positive_lease",
         "Swat4.C10.expire_reachable_removes",
         "Swat4.C10.facts_batches_atomic_sites",
         "Swat4.C10.facts_batch_keys",
@@ -52,6 +51,7 @@ CFG = {
         {"name": "Swat4.C10.stKey_mem_clearStatus", "why": "glue (re-export of the encoding lemma `RStore.stKey_mem_clearStatus`)"},
         {"name": "Swat4.C10.rstep_store", "why": "read-back of the definition (`Sys.step` unfolded on a reader client)"},
         {"name": "Swat4.C10.facts_no_bare_pipeline_in_writer", "why": "redundant: read off the literal lists that `facts_batches_atomic` already pins"},
+        {"name": "Swat4.C10.lock_ttl_needs_positive_lease", "why": "`Consistent.ttl` applied to the inserted cell (one projection); the content is lock_ttl / the facts pin of the lease"},
     ],
     "shards": (4, 16),
     "nontrivial": _c10_nontrivial,
@@ -92,7 +92,7 @@ CFG = {
                 "and wstep_atomic - its store effect is nothing or exactly one atomic step; C10_main / C10_world - invariant along every "
                 "event list (any number of clients, any interleaving, expiry events, queue commands); C10_crash - hence after every prefix, "
                 "i.e. after a client death at any command boundary (a corollary of C10_main: the prefix hypothesis is not needed); lock_ttl - every "
-                "lock cell in every reachable state carries an expiry: lockSetNX writes ttl := leaseHasTTL = decide (0 < Facts.lockLeaseMs), the lease read from a real repository on every run (lock_ttl_needs_positive_lease: a cell with the flag off breaks Consistent); tied to the code syntactically by facts_lock_ttl; "
+                "lock cell in every reachable state carries an expiry: lockSetNX writes ttl := leaseHasTTL = decide (0 < Facts.lockLeaseMs), the lease read from a real repository on every run (lock_ttl_needs_positive_lease [supporting, not audited: `Consistent.ttl` applied]: a cell with the flag off breaks Consistent); tied to the code syntactically by facts_lock_ttl; "
                 "the flag is READ by the model: lockExpire removes only a cell whose ttl flag is set (a Redis key without TTL never expires), so 'no crash can block a server forever' depends on it: "
                 "blocked_while_held (while the cell exists another call's SET NX on that address changes nothing), holder_death_unblocks / holder_death_unblocks_writer (in every reachable state, after Ev.expire k, "
                 "whoever held the cell and whether or not it is alive, the next SET NX on k by any client succeeds; premise 'the cell has a TTL' discharged by lock_ttl; holder_death_unblocks_of_ttl / expire_frees are the single step with the premise explicit); "
